@@ -72,6 +72,8 @@ def gen_filter(rng, i):
     wl = sorted({round(lo + rng.uniform(0, 8), 3) for _ in range(n)})
     if len(wl) < 2:
         wl = [lo, lo + 1.0]
+    if rng.random() < 0.5:
+        rng.shuffle(wl)                  # the class sorts its table: any row order is legal
     return {"type": "generic", "wl": wl, "samples": [round(rng.uniform(0, 1), 3) for _ in wl], "name": "g%d" % i}
 
 
@@ -197,6 +199,7 @@ class InstrumentMachine(Machine):
         c.kind = cfg["kind"]
         c.spec = {k: (list(v) if isinstance(v, list) else v) for k, v in cfg["spec"].items()}
         c.pool = [make_filter(fs) for fs in cfg.get("pool", [])]
+        c.poolspec = list(cfg.get("pool", []))
         c.obj = self._construct(c, c.spec)
         c.warm = set()
         c.stale_risk = set()
@@ -305,9 +308,18 @@ class InstrumentMachine(Machine):
             lo, hi, bins = obj.min_wavelength, obj.max_wavelength, obj.spectral_bins
             narrow = min(f.window for f in fl) / obj.min_bins_per_window
             for f in fl:
-                if not (lo <= f.min_wavelength and f.max_wavelength <= hi):
-                    raise Violation("range-covers", c.kind, "filter %r [%r, %r] outside range [%r, %r]" % (
-                        f.name, f.min_wavelength, f.max_wavelength, lo, hi))
+                # the filter's true range comes from the table it was built from, not from what it reports
+                fs = c.poolspec[c.pool.index(f)] if f in c.pool else None
+                if fs is None:
+                    flo, fhi = f.min_wavelength, f.max_wavelength
+                elif fs["type"] == "trap":
+                    flo, fhi = fs["cw"] - 0.5 * fs["window"], fs["cw"] + 0.5 * fs["window"]
+                else:
+                    flo, fhi = min(fs["wl"]), max(fs["wl"])
+                if not (lo <= flo + 1e-9 and fhi - 1e-9 <= hi):
+                    raise Violation("range-covers", c.kind, "filter %r transmits on [%r, %r], outside the range [%r, %r]" % (
+                        f.name, flo, fhi, lo, hi))
+                narrow = min(narrow, (fhi - flo) / obj.min_bins_per_window * (1 + 1e-9))
         else:
             w2p = self._layout(obj)
             if w2p is None:
